@@ -47,12 +47,42 @@ def ensure_driver():
         raise ExtractError("driver build failed:\n" + r.stderr[-4000:])
 
 
+def _tree_key(repo, feats, release):
+    import hashlib
+    h = hashlib.sha1()
+    h.update(("%s|%s|" % (feats, release)).encode())
+    for root, dirs, files in os.walk(os.path.join(repo, "src")):
+        dirs.sort()
+        for fn in sorted(files):
+            if fn.endswith(".rs"):
+                p = os.path.join(root, fn)
+                h.update(os.path.relpath(p, repo).encode())
+                h.update(open(p, "rb").read())
+    for fn in ("Cargo.toml", "Cargo.lock"):
+        p = os.path.join(repo, fn)
+        if os.path.exists(p):
+            h.update(open(p, "rb").read())
+    return h.hexdigest()
+
+
 def extract(features=("async", "http"), release=False, repo=None, keep=False):
     """Run the driver over `repo` with the given cargo features; return the parsed JSON document."""
     repo = repo or REPO
     ensure_driver()
     os.makedirs(CACHE, exist_ok=True)
     feats = ",".join(sorted(features))
+    # optional content-addressed cache (used by the self-test / seed-matrix tools only; never by registered checks)
+    cdir = os.environ.get("FCGI_VERIF_FACTS_CACHE")
+    ckey = None
+    if cdir:
+        os.makedirs(cdir, exist_ok=True)
+        ckey = os.path.join(cdir, _tree_key(repo, feats, release) + ".json")
+        if os.path.exists(ckey):
+            with open(ckey) as f:
+                doc = json.load(f)
+            doc["features"] = feats
+            doc["release"] = release
+            return doc
     tdir = os.path.join(CACHE, "target")
     nonce = uuid.uuid4().hex
     out = os.path.join(CACHE, "facts-%s-%s-%s.json" % (feats.replace(",", "_") or "none", "rel" if release else "dbg", nonce[:8]))
@@ -101,6 +131,11 @@ def extract(features=("async", "http"), release=False, repo=None, keep=False):
         raise ExtractError("unexpected crate " + str(doc.get("crate")))
     doc["features"] = feats
     doc["release"] = release
+    if ckey:
+        tmp = ckey + ".%d.tmp" % os.getpid()
+        with open(tmp, "w") as f:
+            json.dump(doc, f)
+        os.replace(tmp, ckey)
     return doc
 
 
